@@ -133,6 +133,7 @@ private:
 	virtual LitSpan     getCondition(Id_t condId) const = 0;
 	virtual std::string getName(Atom_t atomId)    const = 0;
 	std::string res_;
+	unsigned    depth_; // nesting depth of the term currently being written
 };
 
 } // namespace Potassco
